@@ -149,8 +149,9 @@ static bool load_song(pl::Instance &I, const Bytes &file, const Cfg &c, en::Case
     I.create(44100);
     OPN2_MIDIPlayer *d = I.dev;
     opn2_setNumChips(d, 2);
-    opn2_openBankData(d, g_bank.data(), (long)g_bank.size());
+    pl::must(opn2_openBankData(d, g_bank.data(), (long)g_bank.size()), "opn2_openBankData(generated bank)", d);
     opn2_setRawEventHook(d, raw_hook, NULL);
+    g_inst = &I;   // the raw-event hook reads the tap of the instance under test (a pointer left from an earlier case would dangle)
     if(c.prior) {   // non-initial handle: a three-track song was loaded before, some of its tracks switched off / chosen as solo, part of it played. Track options belong to the song they were set for.
         gm::Track t0, t1, t2; t0.tempo(0, 400000).ev(0, {0x90, 50, 100}).ev(48, {0x80, 50, 0}).eot(0); t1.ev(0, {0x91, 52, 100}).ev(48, {0x81, 52, 0}).eot(0); t2.ev(0, {0x92, 54, 100}).ev(48, {0x82, 54, 0}).eot(0);
         Bytes other = gm::smf(1, 96, {t0.d, t1.d, t2.d});
